@@ -425,7 +425,14 @@ class Library:
         out.sort(key=lambda t: (sign * t[0], tuple(t[1][v] for v in iv)))
         return out
 
-    def Solve(self):
+    def Solve(self, params=None):
+        # solver parameters: a relative MIP gap g allows the library to stop at ANY feasible point within (1 + g) of the optimum --
+        # the stand-in then answers with the worst such point (a static verdict has to hold for every answer the library may give)
+        self.rel_gap = 0.0
+        if params is not None:
+            if not isinstance(params, SolverParameters):
+                raise Raised("TypeError")
+            self.rel_gap = max(0.0, float(params.doubles.get(SolverParameters.RELATIVE_MIP_GAP, 0.0)))
         self.solves += 1
         if self.built is None:
             self.built = len(self.cons)
@@ -444,10 +451,38 @@ class Library:
                 v.value = None
             return self.INFEASIBLE
         obj, val = self._table[0]
+        if self.rel_gap > 0:
+            sign = 1 if self.sense_ == "min" else -1
+            lim = sign * obj + abs(obj) * self.rel_gap
+            within = [(o, v_) for o, v_ in self._table if sign * o <= lim + 1e-12]
+            obj, val = within[-1]
         self.best = obj
         for v in self.vars:
             v.value = val.get(v, 0.0)
         return self.OPTIMAL if self.force_status is None else self.force_status
+
+
+class SolverParameters:
+    """MPSolverParameters of the library: recorded; only the relative MIP gap changes what Solve may answer."""
+    _fold_ok = True
+    RELATIVE_MIP_GAP, PRIMAL_TOLERANCE, DUAL_TOLERANCE = 0, 1, 2
+    PRESOLVE, LP_ALGORITHM, INCREMENTALITY, SCALING = 1000, 1001, 1002, 1003
+    PRESOLVE_OFF, PRESOLVE_ON, DUAL, PRIMAL, BARRIER, INCREMENTALITY_OFF, INCREMENTALITY_ON, SCALING_OFF, SCALING_ON = 0, 1, 10, 11, 12, 0, 1, 0, 1
+
+    def __init__(self):
+        self.doubles, self.ints = {}, {}
+
+    def SetDoubleParam(self, param, value):
+        self.doubles[param] = value
+
+    def SetIntegerParam(self, param, value):
+        self.ints[param] = value
+
+    def GetDoubleParam(self, param):
+        return self.doubles.get(param, {0: 1e-4}.get(param, 1e-7))
+
+    def GetIntegerParam(self, param):
+        return self.ints.get(param, 0)
 
 
 def wrapper_model(repo, funcs=None, consts=None):
@@ -478,7 +513,7 @@ def new_model(wrapper: ClassModel, name="model", int_limit=22):
     status = collections.defaultdict(lambda: "UNKNOWN", {Library.OPTIMAL: "OPTIMAL", Library.FEASIBLE: "FEASIBLE", Library.INFEASIBLE: "INFEASIBLE",
                                                          Library.UNBOUNDED: "UNBOUNDED", Library.ABNORMAL: "ABNORMAL", Library.NOT_SOLVED: "NOT_SOLVED"})
     ortools = Obj(Solver=Obj(OPTIMAL=Library.OPTIMAL, FEASIBLE=Library.FEASIBLE, INFEASIBLE=Library.INFEASIBLE, UNBOUNDED=Library.UNBOUNDED,
-                             ABNORMAL=Library.ABNORMAL, NOT_SOLVED=Library.NOT_SOLVED))
+                             ABNORMAL=Library.ABNORMAL, NOT_SOLVED=Library.NOT_SOLVED), MPSolverParameters=SolverParameters)
     return wrapper.instance(model=lib, ortools=ortools, INF=INF, STATUS=status, names=collections.defaultdict(int)), lib
 
 
